@@ -79,9 +79,14 @@ def extract(repo):
             val = None
             if fn:
                 for st in ast.walk(fn):
-                    if isinstance(st, ast.Assign) and len(st.targets) == 1 and isinstance(st.targets[0], ast.Name) \
-                            and st.targets[0].id == var and isinstance(st.value, ast.Constant) and isinstance(st.value.value, str):
-                        val = st.value.value
+                    if isinstance(st, ast.Assign) and len(st.targets) == 1 and isinstance(st.targets[0], ast.Name) and st.targets[0].id == var:
+                        if isinstance(st.value, ast.Constant) and isinstance(st.value.value, str):
+                            val = st.value.value
+                        elif isinstance(st.value, ast.Name):       # a module-level string constant
+                            for top in pp.body:
+                                if isinstance(top, ast.Assign) and len(top.targets) == 1 and isinstance(top.targets[0], ast.Name) \
+                                        and top.targets[0].id == st.value.id and isinstance(top.value, ast.Constant) and isinstance(top.value.value, str):
+                                    val = top.value.value
             put(key, val)
     except Exception as e:  # pragma: no cover
         missing.append(f"parser.py: {e}")
